@@ -7,7 +7,8 @@ From Coq Require Import ZArith List Bool.
 From Verif Require Import A64.A64Tmpl A64.A64Sem.
 From VerifGen Require Import IsaA64Db.
 From Verif Require Import Codec.OffsetModel Labels.LabelsModel Labels.LabelsProofs Labels.LabelsExact Labels.LabelsAbs
-  Labels.FlatModel Labels.FlatLemmas Labels.FlatProofs Labels.SparseModel Labels.SparseProofs Labels.A64Dec Labels.A64DbTie.
+  Labels.FlatModel Labels.FlatLemmas Labels.FlatProofs Labels.SparseModel Labels.SparseProofs Labels.A64Dec Labels.A64DbTie Labels.A64RefMeaning Labels.A64RefDb.
+From Verif Require Import X86.X86Model Reloc.X86Meaning Labels.X86RefMeaning.
 Import ListNotations.
 Local Open Scope Z_scope.
 
@@ -375,3 +376,210 @@ Theorem C03_a64_db_patched_spec_rows : forall i off m,
   disp_of (last (a64_ops i') (OImm 0 0)) = Some off.
 Proof. exact a64_db_patched_spec_rows. Qed.
 Print Assumptions C03_a64_db_patched_spec_rows.
+
+(* ---- round 6: THE PROPERTY IN ARCHITECTURAL TERMS (AArch64).  After ANY label program (any interleaving of references, binds, data,
+   section switches and layouts with the offsets offs), the 32-bit word found in the BYTE IMAGE at a resolved reference that was emitted
+   as the instruction i with a zero displacement field decodes to that instruction, and the address it designates when executed at its
+   flattened position pc is the address where the label was bound plus the addend (ADRP: Page(pc) + (target - pc), AsmJit's encoding of
+   a page displacement; target - pc is a multiple of 4096 whenever the reference is resolved). ---- *)
+Theorem C03_a64_reference_meaning : forall ops offs id r i,
+  resolves_with offs ops ->
+  let s := run init ops in let f := frun finit ops in
+  nth_error (refs s) id = Some r -> ~ In id (ids (pending s)) ->
+  r_kind r = kind_of i -> r_w0 r = a64_enc (set_imm i 0) -> a64_wf (set_imm i 0) ->
+  exists ls lo, nth_error (f_labels f) (r_label r) = Some (Some (ls, lo)) /\
+    let w := read_word (nth (r_sec r) (f_secs f) []) (r_site r) 4 in
+    let pc := nth (r_sec r) offs 0 + r_site r in
+    let target := nth ls offs 0 + lo + r_rel r in
+    a64_dec w = Some (set_imm i (final_disp offs ls lo r / 2 ^ discard (fmt_of_kind (kind_of i)))) /\
+    a64_site_target pc w = Some (match i with
+                                 | IAdr true _ _ => ((pc - pc mod 4096) + (target - pc)) mod 2 ^ 64
+                                 | _ => target mod 2 ^ 64
+                                 end).
+Proof. exact a64_reference_meaning. Qed.
+Print Assumptions C03_a64_reference_meaning.
+
+Theorem C03_a64_reference_meaning_witness :
+  let ops := [ONewLabel; ONewSection; ORaw [31; 32; 3; 213]; ORef K_Imm19 0 O [] 3019898885 []; OSection 1%nat; OGap 8; OBind O; OResolve [0; 4096]] in
+  let i := ICb true false 5 0 in
+  let s := run init ops in let f := frun finit ops in
+  resolves_with [0; 4096] ops /\ pending s = [] /\
+  exists r, nth_error (refs s) O = Some r /\ r_kind r = kind_of i /\ r_w0 r = a64_enc (set_imm i 0) /\ a64_wf (set_imm i 0) /\
+            r_sec r = O /\ r_site r = 4 /\
+            a64_site_target 4 (read_word (nth O (f_secs f) []) 4 4) = Some 4104.
+Proof. exact a64_reference_meaning_witness. Qed.
+Print Assumptions C03_a64_reference_meaning_witness.
+
+(* ---- round 6: THE PROPERTY IN ARCHITECTURAL TERMS (x86, both modes) through C01's PROVEN decoder (X86Model.sdec, round trip sdec_senc) and
+   the reading `designated` of Reloc.X86Meaning (rel = end of instruction + immediate; RIP-relative = end of instruction + disp32).  After
+   ANY label program, an instruction whose rel32 immediate is the word of a resolved label reference (emitted by EmitJmpCall: zero hole,
+   addend -4, field = the last four bytes) designates the address where the label was bound, modulo the address width. ---- *)
+Theorem C03_x86_branch_reference_meaning : forall ops offs id r (m : mode) sh s c xr xx xb xr' rest,
+  resolves_with offs ops ->
+  let st := run init ops in
+  nth_error (refs st) id = Some r -> ~ In id (ids (pending st)) ->
+  r_kind r = K_Rel32 -> r_w0 r = 0 -> r_rel r = -4 ->
+  s_modrm s = MNone xr xx xb xr' -> s_imm s = r_word r -> wf m sh s = true -> adm m sh s c = true ->
+  let len := Z.of_nat (length (senc m sh s c)) in
+  let pc := nth (r_sec r) offs 0 + r_site r + 4 - len in
+  exists ls lo, nth_error (labels st) (r_label r) = Some (Some (ls, lo)) /\
+    site_target m CBranch sh pc (senc m sh s c ++ rest) = Some ((nth ls offs 0 + lo) mod 2 ^ abits m).
+Proof. exact x86_branch_reference_meaning. Qed.
+Print Assumptions C03_x86_branch_reference_meaning.
+
+(* x86-64 `[rip + label + d]` operands (with or without a trailing immediate): tail = distance from the disp32 field to the end of the
+   instruction; the recorded addend is d - tail, so r_rel r + tail is the operand's own displacement d *)
+Theorem C03_x86_rip_reference_meaning : forall ops offs id r sh s c reg rest tail,
+  resolves_with offs ops ->
+  let st := run init ops in
+  nth_error (refs st) id = Some r -> ~ In id (ids (pending st)) ->
+  r_kind r = K_Rel32 -> r_w0 r = 0 ->
+  s_modrm s = MMem reg (mkM BRip None 0 (sext32 (r_word r))) -> wf M64 sh s = true -> adm M64 sh s c = true ->
+  let len := Z.of_nat (length (senc M64 sh s c)) in
+  let pc := nth (r_sec r) offs 0 + r_site r + tail - len in
+  exists ls lo, nth_error (labels st) (r_label r) = Some (Some (ls, lo)) /\
+    site_target M64 CMem sh pc (senc M64 sh s c ++ rest) = Some ((nth ls offs 0 + lo + (r_rel r + tail)) mod 2 ^ 64).
+Proof. exact x86_rip_reference_meaning. Qed.
+Print Assumptions C03_x86_rip_reference_meaning.
+
+Theorem C03_x86_branch_reference_meaning_witness :
+  let ops := [ONewLabel; ORaw [144]; ORef K_Rel32 (-4) O [233] 0 []; OGap 100; OBind O; OResolve [0]] in
+  let st := run init ops in let sh := mkSh false false 4 1 in let c := mkC false 0 false in
+  resolves_with [0] ops /\ pending st = [] /\
+  exists r, nth_error (refs st) O = Some r /\ r_kind r = K_Rel32 /\ r_w0 r = 0 /\ r_rel r = -4 /\ r_sec r = O /\ r_site r = 2 /\
+            wf M64 sh (ex_jmp (r_word r)) = true /\ adm M64 sh (ex_jmp (r_word r)) c = true /\
+            senc M64 sh (ex_jmp (r_word r)) c = [233; 100; 0; 0; 0] /\
+            nth_error (labels st) O = Some (Some (O, 106)) /\
+            site_target M64 CBranch sh 1 (senc M64 sh (ex_jmp (r_word r)) c) = Some 106.
+Proof. exact x86_branch_reference_meaning_witness. Qed.
+Print Assumptions C03_x86_branch_reference_meaning_witness.
+
+Theorem C03_x86_rip_reference_meaning_witness :
+  let ops := [ONewLabel; ORaw [144]; ORef K_Rel32 (-4) O [72; 141; 5] 0 []; OGap 100; OBind O; OResolve [0]] in
+  let st := run init ops in let sh := mkSh true false 0 1 in let c := mkC false 0 false in
+  resolves_with [0] ops /\ pending st = [] /\
+  exists r, nth_error (refs st) O = Some r /\ r_kind r = K_Rel32 /\ r_w0 r = 0 /\ r_rel r = -4 /\ r_sec r = O /\ r_site r = 4 /\
+            wf M64 sh (ex_lea (sext32 (r_word r))) = true /\ adm M64 sh (ex_lea (sext32 (r_word r))) c = true /\
+            senc M64 sh (ex_lea (sext32 (r_word r))) c = [72; 141; 5; 100; 0; 0; 0] /\
+            nth_error (labels st) O = Some (Some (O, 108)) /\
+            site_target M64 CMem sh 1 (senc M64 sh (ex_lea (sext32 (r_word r))) c) = Some 108.
+Proof. exact x86_rip_reference_meaning_witness. Qed.
+Print Assumptions C03_x86_rip_reference_meaning_witness.
+
+(* short branches (jmp / jcc / jecxz / loop rel8): same statement with the one-byte field *)
+Theorem C03_x86_branch8_reference_meaning : forall ops offs id r (m : mode) sh s c xr xx xb xr' rest,
+  resolves_with offs ops ->
+  let st := run init ops in
+  nth_error (refs st) id = Some r -> ~ In id (ids (pending st)) ->
+  r_kind r = K_Rel8 -> r_w0 r = 0 -> r_rel r = -1 ->
+  s_modrm s = MNone xr xx xb xr' -> s_imm s = r_word r -> wf m sh s = true -> adm m sh s c = true ->
+  let len := Z.of_nat (length (senc m sh s c)) in
+  let pc := nth (r_sec r) offs 0 + r_site r + 1 - len in
+  exists ls lo, nth_error (labels st) (r_label r) = Some (Some (ls, lo)) /\
+    branch8_target m sh pc (senc m sh s c ++ rest) = Some ((nth ls offs 0 + lo) mod 2 ^ abits m).
+Proof. exact x86_branch8_reference_meaning. Qed.
+Print Assumptions C03_x86_branch8_reference_meaning.
+
+(* the same about the BYTE IMAGE alone: whatever well-formed immediate-only instruction with a 4-byte (1-byte) immediate lies in the
+   section image so that it ends where the resolved reference's field ends - decoding the image bytes from its first byte with C01's
+   proven decoder designates the address where the label was bound; nothing relates the instruction to the reference but its position *)
+Theorem C03_x86_branch_in_image : forall ops offs id r (m : mode) sh s c xr xx xb xr' (A B : list Z),
+  resolves_with offs ops ->
+  let st := run init ops in let f := frun finit ops in
+  nth_error (refs st) id = Some r -> ~ In id (ids (pending st)) ->
+  r_kind r = K_Rel32 -> r_w0 r = 0 -> r_rel r = -4 ->
+  nth (r_sec r) (f_secs f) [] = A ++ senc m sh s c ++ B ->
+  zlen A + zlen (senc m sh s c) = r_site r + 4 -> sh_imm sh = 4%nat ->
+  s_modrm s = MNone xr xx xb xr' -> wf m sh s = true -> adm m sh s c = true ->
+  exists ls lo, nth_error (labels st) (r_label r) = Some (Some (ls, lo)) /\
+    site_target m CBranch sh (nth (r_sec r) offs 0 + zlen A) (senc m sh s c ++ B) = Some ((nth ls offs 0 + lo) mod 2 ^ abits m).
+Proof. exact x86_branch_in_image. Qed.
+Print Assumptions C03_x86_branch_in_image.
+
+Theorem C03_x86_branch8_in_image : forall ops offs id r (m : mode) sh s c xr xx xb xr' (A B : list Z),
+  resolves_with offs ops ->
+  let st := run init ops in let f := frun finit ops in
+  nth_error (refs st) id = Some r -> ~ In id (ids (pending st)) ->
+  r_kind r = K_Rel8 -> r_w0 r = 0 -> r_rel r = -1 ->
+  nth (r_sec r) (f_secs f) [] = A ++ senc m sh s c ++ B ->
+  zlen A + zlen (senc m sh s c) = r_site r + 1 -> sh_imm sh = 1%nat ->
+  s_modrm s = MNone xr xx xb xr' -> wf m sh s = true -> adm m sh s c = true ->
+  exists ls lo, nth_error (labels st) (r_label r) = Some (Some (ls, lo)) /\
+    branch8_target m sh (nth (r_sec r) offs 0 + zlen A) (senc m sh s c ++ B) = Some ((nth ls offs 0 + lo) mod 2 ^ abits m).
+Proof. exact x86_branch8_in_image. Qed.
+Print Assumptions C03_x86_branch8_in_image.
+
+Theorem C03_x86_branch_in_image_witness :
+  let ops := [ONewLabel; ORaw [144]; ORef K_Rel32 (-4) O [233] 0 []; OGap 100; OBind O; OResolve [0]] in
+  let f := frun finit ops in let sh := mkSh false false 4 1 in let c := mkC false 0 false in
+  nth O (f_secs f) [] = [144] ++ senc M64 sh (ex_jmp 100) c ++ repeat 0 100 /\
+  wf M64 sh (ex_jmp 100) = true /\ adm M64 sh (ex_jmp 100) c = true /\
+  site_target M64 CBranch sh 1 (senc M64 sh (ex_jmp 100) c ++ repeat 0 100) = Some 106.
+Proof. exact x86_branch_in_image_witness. Qed.
+Print Assumptions C03_x86_branch_in_image_witness.
+
+(* `op reg, [rip + label + d]` / `op [rip + label + d], imm` found in the image: the displacement of the structural instruction is not
+   assumed, it is read from the image; the designated address is the label's + (recorded addend + 4 + size of the trailing immediate) *)
+Theorem C03_x86_rip_in_image : forall ops offs id r sh s c reg d (A B : list Z),
+  resolves_with offs ops ->
+  let st := run init ops in let f := frun finit ops in
+  nth_error (refs st) id = Some r -> ~ In id (ids (pending st)) ->
+  r_kind r = K_Rel32 -> r_w0 r = 0 ->
+  nth (r_sec r) (f_secs f) [] = A ++ senc M64 sh s c ++ B ->
+  zlen A + zlen (senc M64 sh s c) - Z.of_nat (sh_imm sh) - 4 = r_site r ->
+  s_modrm s = MMem reg (mkM BRip None 0 d) -> wf M64 sh s = true -> adm M64 sh s c = true ->
+  exists ls lo, nth_error (labels st) (r_label r) = Some (Some (ls, lo)) /\
+    site_target M64 CMem sh (nth (r_sec r) offs 0 + zlen A) (senc M64 sh s c ++ B) =
+      Some ((nth ls offs 0 + lo + (r_rel r + 4 + Z.of_nat (sh_imm sh))) mod 2 ^ 64).
+Proof. exact x86_rip_in_image. Qed.
+Print Assumptions C03_x86_rip_in_image.
+
+Theorem C03_x86_rip_in_image_witness :
+  let ops := [ONewLabel; ORaw [144]; ORef K_Rel32 (-4) O [72; 141; 5] 0 []; OGap 100; OBind O; OResolve [0]] in
+  let f := frun finit ops in let sh := mkSh true false 0 1 in let c := mkC false 0 false in
+  nth O (f_secs f) [] = [144] ++ senc M64 sh (ex_lea 100) c ++ repeat 0 100 /\
+  wf M64 sh (ex_lea 100) = true /\ adm M64 sh (ex_lea 100) c = true /\
+  site_target M64 CMem sh 1 (senc M64 sh (ex_lea 100) c ++ repeat 0 100) = Some 108.
+Proof. exact x86_rip_in_image_witness. Qed.
+Print Assumptions C03_x86_rip_in_image_witness.
+
+(* patched later = assembled with the target known: the word in the image at a resolved AArch64 reference is exactly the word C02's
+   instruction-level database model (the one C02's check ties to the real assembler) emits for the same instruction with the displacement
+   operand "label at pc + final displacement" *)
+Theorem C03_a64_reference_is_db_word : forall ops offs id r i,
+  resolves_with offs ops ->
+  let s := run init ops in let f := frun finit ops in
+  nth_error (refs s) id = Some r -> ~ In id (ids (pending s)) ->
+  r_kind r = kind_of i -> r_w0 r = a64_enc (set_imm i 0) -> a64_wf (set_imm i 0) -> a64_db_ok i ->
+  exists ls lo, nth_error (f_labels f) (r_label r) = Some (Some (ls, lo)) /\
+    let d := final_disp offs ls lo r in
+    let i' := set_imm i (d / 2 ^ discard (fmt_of_kind (kind_of i))) in
+    spec_rows rows (a64_mn i) (a64_ops i') = Some (a64_rid i, read_word (nth (r_sec r) (f_secs f) []) (r_site r) 4) /\
+    disp_of (last (a64_ops i') (OImm 0 0)) = Some d.
+Proof. exact a64_reference_is_db_word. Qed.
+Print Assumptions C03_a64_reference_is_db_word.
+
+(* ADRP: a resolved reference designates the 4 KiB page of the label (+ addend): resolution guarantees that the distance is a multiple
+   of 4096 (anything else is refused, never truncated), so Page(pc) + (target - pc) = Page(target) *)
+Theorem C03_a64_adrp_reference_page : forall ops offs id r rd,
+  resolves_with offs ops ->
+  let s := run init ops in let f := frun finit ops in
+  nth_error (refs s) id = Some r -> ~ In id (ids (pending s)) ->
+  r_kind r = K_Adrp -> r_w0 r = a64_enc (IAdr true rd 0) -> 0 <= rd < 32 ->
+  exists ls lo, nth_error (f_labels f) (r_label r) = Some (Some (ls, lo)) /\
+    let w := read_word (nth (r_sec r) (f_secs f) []) (r_site r) 4 in
+    let pc := nth (r_sec r) offs 0 + r_site r in
+    let target := nth ls offs 0 + lo + r_rel r in
+    (target - pc) mod 4096 = 0 /\
+    a64_site_target pc w = Some ((target - target mod 4096) mod 2 ^ 64).
+Proof. exact a64_adrp_reference_page. Qed.
+Print Assumptions C03_a64_adrp_reference_page.
+
+Theorem C03_a64_adrp_reference_page_witness :
+  let ops := [ONewLabel; ORef K_Adrp 0 O [] 2415919107 []; OGap 4092; OBind O; OResolve [0]] in
+  let s := run init ops in let f := frun finit ops in
+  resolves_with [0] ops /\ pending s = [] /\ 2415919107 = a64_enc (IAdr true 3 0) /\
+  nth_error (labels s) O = Some (Some (O, 4096)) /\
+  a64_site_target 0 (read_word (nth O (f_secs f) []) 0 4) = Some 4096.
+Proof. exact a64_adrp_reference_page_witness. Qed.
+Print Assumptions C03_a64_adrp_reference_page_witness.
